@@ -210,10 +210,11 @@ class FixedArray(Array, Generic[ValuesType]):
         from barril.units import Scalar
 
         if isinstance(value, tuple):
-            scalar = Scalar(self.GetValues()[index], self.GetUnit()).CreateCopy(*value)
+            scalar = self.IndexAsScalar(index).CreateCopy(*value)
 
         elif not isinstance(value, Scalar):
-            scalar = Scalar(value, self.GetUnit())
+            # a plain number is an amount in this array's own quantity (category and unit)
+            scalar = Scalar(self.GetQuantity(), value)
 
         else:
             scalar = value
